@@ -113,6 +113,107 @@ pub trait Prop {
     fn set_shard(&mut self, _w: u64, _nw: u64) {}
     /// called in the parent before `prepare`: the parent only needs the number of cases
     fn set_parent_mode(&mut self) {}
+    /// representative cases for the ordered-pair block (see `WithPairs`): every ordered pair (a, b) of them is
+    /// executed back to back in one process and b must still satisfy its oracle. Must be the same list in the
+    /// parent and in every worker, and the listed cases must be materialised in every shard.
+    /// Default: 8 cases spread evenly over the enumeration.
+    fn pair_reps(&self, _tier: Tier) -> Vec<u64> {
+        let n = self.n_cases();
+        if n < 2 {
+            return vec![];
+        }
+        let k = 8u64.min(n);
+        (0..k).map(|i| (2 * i + 1) * n / (2 * k)).collect()
+    }
+}
+
+/// Adds to a property's enumeration the block "every ordered pair of representative cases, run back to back in
+/// the same process": state that survives from one connection / call / decode to the next (a cache, a static, a
+/// hoisted scratch buffer) must not change the verdict of the second. The second case is judged by its own oracle.
+pub struct WithPairs {
+    inner: Box<dyn Prop>,
+    reps: Vec<u64>,
+    base: u64,
+}
+
+impl WithPairs {
+    pub fn new(inner: Box<dyn Prop>) -> WithPairs {
+        WithPairs { inner, reps: vec![], base: 0 }
+    }
+    fn pair(&self, idx: u64) -> (u64, u64) {
+        let k = self.reps.len() as u64;
+        let j = idx - self.base;
+        (self.reps[(j / k) as usize], self.reps[(j % k) as usize])
+    }
+}
+
+impl Prop for WithPairs {
+    fn id(&self) -> &'static str {
+        self.inner.id()
+    }
+    fn level(&self) -> &'static str {
+        self.inner.level()
+    }
+    fn prepare(&mut self, tier: Tier) -> Result<(), String> {
+        self.inner.prepare(tier)?;
+        self.base = self.inner.n_cases();
+        self.reps = self.inner.pair_reps(tier).into_iter().filter(|i| *i < self.base).collect();
+        Ok(())
+    }
+    fn n_cases(&self) -> u64 {
+        self.base + (self.reps.len() * self.reps.len()) as u64
+    }
+    fn run_case(&mut self, idx: u64) -> Outcome {
+        if idx < self.base {
+            return self.inner.run_case(idx);
+        }
+        let (a, b) = self.pair(idx);
+        // the first case only establishes whatever state survives it; its own verdict belongs to its own index
+        let _ = std::panic::catch_unwind(std::panic::AssertUnwindSafe(|| self.inner.run_case(a)));
+        let _ = take_panic();
+        let mut out = self.inner.run_case(b);
+        out.class = format!("pair:{}", out.class);
+        out.nontrivial = true;
+        out
+    }
+    fn describe(&self, idx: u64) -> Value {
+        if idx < self.base {
+            return self.inner.describe(idx);
+        }
+        let (a, b) = self.pair(idx);
+        json!({"idx": idx, "pair_block": "two cases back to back in one process; the verdict is that of the second", "first": self.inner.describe(a), "then": self.inner.describe(b)})
+    }
+    fn rule(&self) -> String {
+        format!("{} PLUS the pair block: every ordered pair (a, b) of {} representative cases run back to back in one process, b judged by its own oracle (state surviving from one connection / call to the next).", self.inner.rule(), self.reps.len())
+    }
+    fn assumptions(&self) -> Vec<String> {
+        self.inner.assumptions()
+    }
+    fn coverage_extra(&self) -> Value {
+        let mut v = self.inner.coverage_extra();
+        if let Some(o) = v.as_object_mut() {
+            o.insert("pair_block".into(), json!({"representatives": self.reps, "ordered_pairs": self.reps.len() * self.reps.len()}));
+        }
+        v
+    }
+    fn mem_rule(&self, peak: usize, maxreq: usize, bytes_in: u64) -> Option<String> {
+        self.inner.mem_rule(peak, maxreq, bytes_in)
+    }
+    fn case_timeout(&self, tier: Tier) -> u64 {
+        self.inner.case_timeout(tier)
+    }
+    fn workers(&self) -> usize {
+        self.inner.workers()
+    }
+    fn exhaustive(&self) -> bool {
+        self.inner.exhaustive()
+    }
+    fn set_shard(&mut self, w: u64, nw: u64) {
+        self.inner.set_shard(w, nw)
+    }
+    fn set_parent_mode(&mut self) {
+        self.inner.set_parent_mode()
+    }
 }
 
 // ------------------------------------------------------------------ per-case instrumentation
@@ -334,6 +435,8 @@ pub struct RunResult {
     pub crashes: u64,
     /// the sweep was cut short because too many cases crashed the worker (the crashes are violations)
     pub aborted_early: bool,
+    /// number of worker processes (case idx was executed by worker idx % workers, after all smaller indices of that class)
+    pub workers: u64,
 }
 
 struct Slot {
@@ -478,6 +581,7 @@ pub fn run_parent(prop: &mut dyn Prop, tier: Tier) -> Result<RunResult, String> 
         wall_s: 0.0,
         crashes,
         aborted_early,
+        workers: nw as u64,
     };
     for w in 0..nw {
         let p = dir.join(format!("result.{}.jsonl", w));
@@ -569,6 +673,119 @@ pub fn replay_in_subprocess(id: &str, tier: Tier, idx: u64) -> Result<(String, O
         }
     }
     Ok((format!("crash:{:?}", out.status), desc))
+}
+
+/// run the cases `idxs` one after the other in ONE fresh subprocess (a history) and return the signature of the last
+pub fn replay_seq_in_subprocess(id: &str, tier: Tier, idxs: &[u64]) -> Result<String, String> {
+    let exe = std::env::current_exe().map_err(|e| e.to_string())?;
+    let list: Vec<String> = idxs.iter().map(|i| i.to_string()).collect();
+    let out = Command::new(exe)
+        .arg("--seq")
+        .arg(id)
+        .arg(tier.name())
+        .arg(list.join(","))
+        .stdin(Stdio::null())
+        .stderr(Stdio::piped())
+        .stdout(Stdio::null())
+        .output()
+        .map_err(|e| e.to_string())?;
+    let err = String::from_utf8_lossy(&out.stderr).to_string();
+    for l in err.lines() {
+        if let Some(s) = l.strip_prefix("ONE-SIG: ") {
+            return Ok(s.to_string());
+        }
+    }
+    Ok(format!("crash:{:?}", out.status))
+}
+
+/// A violation that a fresh process does not reproduce may depend on what the same process executed before
+/// (state that survives a connection: a cache, a static). Look for a history of earlier cases of the same
+/// worker after which the case fails again, smallest first. None: not reproducible at all.
+pub fn find_history(id: &str, tier: Tier, idx: u64, workers: u64, sig: &str) -> Option<Vec<u64>> {
+    let t0 = Instant::now();
+    let budget = Duration::from_secs(240);
+    let preds: Vec<u64> = (0..idx).filter(|j| j % workers == idx % workers).collect();
+    if preds.is_empty() {
+        return None;
+    }
+    let ok = |h: &[u64]| -> bool {
+        let mut v = h.to_vec();
+        v.push(idx);
+        replay_seq_in_subprocess(id, tier, &v).map(|s| s == sig).unwrap_or(false)
+    };
+    // the last k predecessors, k doubling
+    let mut k = 1usize;
+    let mut found: Option<Vec<u64>> = None;
+    loop {
+        let kk = k.min(preds.len());
+        let h = &preds[preds.len() - kk..];
+        if ok(h) {
+            found = Some(h.to_vec());
+            break;
+        }
+        if kk == preds.len() || t0.elapsed() > budget {
+            break;
+        }
+        k *= 2;
+    }
+    let mut h = found?;
+    // shrink: one predecessor alone, else halve while it still reproduces
+    for (n, p) in h.iter().enumerate() {
+        if n >= 64 || t0.elapsed() > budget {
+            break;
+        }
+        if ok(&[*p]) {
+            return Some(vec![*p]);
+        }
+    }
+    while h.len() > 1 && t0.elapsed() < budget {
+        let half = h.len() / 2;
+        if ok(&h[half..]) {
+            h = h[half..].to_vec();
+        } else if ok(&h[..half]) {
+            h = h[..half].to_vec();
+        } else {
+            break;
+        }
+    }
+    Some(h)
+}
+
+/// entry point for `--seq`: run the cases in order in this process, print the signature of the last one
+pub fn seq_main(mut prop: Box<dyn Prop>, tier: Tier, idxs: &[u64], verbose: bool) -> i32 {
+    if !verbose {
+        silence_stdout();
+    }
+    install_panic_hook();
+    if let Err(e) = prop.prepare(tier) {
+        eprintln!("prepare failed: {}", e);
+        return 2;
+    }
+    let mut last = None;
+    for &idx in idxs {
+        if idx >= prop.n_cases() {
+            eprintln!("index {} out of range ({} cases)", idx, prop.n_cases());
+            return 2;
+        }
+        if verbose {
+            eprintln!("case: {}", prop.describe(idx));
+        }
+        let out = guarded(prop.as_mut(), idx);
+        if verbose {
+            eprintln!("  class: {}", out.class);
+            if let Some(v) = &out.violation {
+                eprintln!("  violation: {} :: {}", v.sig, v.detail);
+            }
+        }
+        last = Some(out);
+    }
+    let v = last.and_then(|o| o.violation);
+    eprintln!("ONE-SIG: {}", v.as_ref().map(|v| v.sig.clone()).unwrap_or_default());
+    if v.is_some() {
+        1
+    } else {
+        0
+    }
 }
 
 /// entry point for `--one`: run a single case in-process and print its signature on stderr
